@@ -101,6 +101,12 @@ def oracle(scn, obs, ref, schedule):
             rel = next((i for i, t in enumerate(tl) if t[0] == "release" and t[1] == idx), None)
             if rel is None or rel > i_r:
                 out.append(("resumed-before-release", f"suspension {idx}: _resume_from_suspender executed before its release"))
+        # 3b. the helper puts rewindability back the way it was: its closing 'rewindable' message carries the value
+        #     the engine had when the suspension started (the plans here never toggle it themselves -> True)
+        if len(helpers) == 1:
+            closing = [obs.msgs[t[1]] for t in tl[i_r + 1 :] if t[0] == "msg" and t[2] == "rewindable"][:1]
+            if closing and closing[0].args[:1] != (True,):
+                out.append(("rewindable-not-restored", f"after the suspension the helper sets rewindable to {closing[0].args[:1]} although it was True before"))
         # 4. shape of the helper: rewindable, PRE*, wait_for ... _resume, POST*, rewindable
         #    (judged only when suspensions do not overlap: a nested helper's messages interleave anywhere)
         if len(helpers) != 1:
